@@ -589,6 +589,51 @@ def limit_w(ctx):
                   "narrowest and the widest width is refused only after part of the catalog was written" % (tn, cn), f.loc(), fn=f.name, key=R + "|prevalidate")
 
 
+CATALOG_REF = {
+    "_Tables": [("Name", "s64", True)],
+    "_Columns": [("Table", "s64", True), ("Number", "i16", True), ("Name", "s64", False), ("Type", "i16", False)],
+    "_Validation": [("Table", "s32", True), ("Column", "s32", True), ("Nullable", "s4", False), ("MinValue", "i32", False), ("MaxValue", "i32", False), ("KeyTable", "s255", False),
+                    ("KeyColumn", "i16", False), ("Category", "s32", False), ("Set", "s255", False), ("Description", "s255", False)],
+}
+
+
+def catalog_schema(ctx, rule="CAT-SCHEMA"):
+    """the built-in definitions of the three catalog tables are the format's: Package::open parses the catalog streams of every file with them"""
+    from ..lib import call_of
+    prog = ctx.prog
+    ctx.rule(rule, "the built-in definitions of _Tables, _Columns and _Validation (with which Package::open parses the catalog streams of every file, whatever its _Columns rows "
+                   "say about them) list the format's columns in the format's order with the format's storage type (string reference / 16-bit / 32-bit integer) and key flag: a "
+                   "different width or order misaligns every later column of a foreign file")
+    total = 0
+    for fn_, tbl in (("msi::internal::package::make_columns_table", "_Columns"), ("msi::internal::package::make_tables_table", "_Tables"), ("msi::internal::package::make_validation_columns", "_Validation")):
+        g = prog.fn(fn_)
+        Sg = Sym(prog, g)
+        got = []
+        for b, n, args, t in sorted(symcalls(prog, g, Sg), key=lambda c: c[0]):
+            m = re.search(r"ColumnBuilder::(string|id_string|text_string|formatted_string|int16|int32|binary|category_string)$", n)
+            if not m:
+                continue
+            kind = {"int16": "i16", "int32": "i32"}.get(m.group(1)) or ("s" + (args[1][2:] if len(args) > 1 and re.fullmatch(r"c:\d+", args[1]) else "?"))
+            key, name, v = False, None, args[0]
+            for _ in range(12):
+                cn, ca = call_of(Sg, v)
+                if not cn:
+                    break
+                if cn.endswith("ColumnBuilder::primary_key"):
+                    key = True
+                if cn.endswith("Column::build"):
+                    nm = re.findall(r"s:'([^']*)'", ca[0]) if ca else []
+                    name = nm[0] if nm else None
+                    break
+                v = ca[0] if ca else ""
+            got.append((name, kind, key))
+        total += len(got)
+        ctx.check(got == CATALOG_REF[tbl], rule, "%s columns" % tbl, str(got), "the built-in definition of %s is %s; the format's is %s: the catalog streams of files written by other "
+                  "tools are parsed with wrong widths or in the wrong order, and files saved by the library are misread by other tools" % (tbl, got, CATALOG_REF[tbl]),
+                  g.loc(), fn=g.name, key="%s|%s" % (rule, tbl))
+    ctx.floor(rule, "catalog columns found", total, 15)
+
+
 def del_only_retain(ctx, rule="DEL-RETAIN"):
     """rows leave a table in Delete::exec only through the order-preserving, string-releasing retain pass"""
     prog = ctx.prog
